@@ -19,7 +19,8 @@ RULE = ("(a) 200 index-mask pairs for _merge_mask (strictly increasing as produc
         "duplicated ones); (b) 80 groups of 1-5 redundant readings with different std_dev through "
         "_calculate_weighted_measurements; (c) meshed MV nets (3-7 buses, 0-2 transformers with 150 degree shift, optional "
         "trafo3w, shunt, closed bus-bus switch, open line switch, shuffled indices) with an observable base measurement "
-        "set (all bus injections + voltages, or all branch flows + one voltage) plus random extra v/va/p/q/i readings, "
+        "set (all bus injections + voltages, or all branch flows + one voltage) plus random extra v/va/p/q/i readings, or an "
+        "exactly determined set without any redundancy (|V| at the slack bus + p, q at every other bus), "
         "estimated in original order and again permuted with 30 % duplicated readings; non-trivial = estimation ran on a "
         "net with at least 3 buses and at least one redundant or duplicated reading")
 ASSUMPTIONS = ["convergence of the Gauss-Newton WLS iteration from the flat start is not proved; it is observed on every generated case (a failure to converge is reported as a violation)",
@@ -301,8 +302,15 @@ def _real_case(ctx, rng, k, hx_jobs, gain_jobs):
         ctx.count("pf_failed")
         return
     base_inj, base_flow, extra, live = _exact_measurements(net, rng)
-    scheme = rng.choice(["inj", "inj", "flow", "both"])
-    if scheme == "inj":
+    scheme = rng.choice(["inj", "inj", "flow", "both", "minimal"])
+    slack_buses = set(int(b) for b in net.ext_grid.bus.values)
+    if scheme == "minimal" and (feat & {"fused_bus", "open_line_switch"} or len(slack_buses) != 1):
+        scheme = "inj"       # auxiliary/fused buses change the number of states: keep the exactly determined case simple
+    if scheme == "minimal":
+        # exactly determined, fully observable set (no redundancy): |V| at the slack bus, p and q at every other bus
+        # = 2*n_bus - 1 readings; check_observability must accept it
+        ms = [m for m in base_inj if (m[0] == "v" and int(m[4]) in slack_buses) or (m[0] in ("p", "q") and int(m[4]) not in slack_buses)]
+    elif scheme == "inj":
         ms = list(base_inj)
     elif scheme == "flow":
         ms = list(base_flow) + [m for m in base_inj if m[0] == "v"][:max(1, len(live) // 2)]
@@ -311,7 +319,8 @@ def _real_case(ctx, rng, k, hx_jobs, gain_jobs):
     else:
         ms = list(base_inj) + list(base_flow)
     with_i = rng.random() < 0.4
-    ms += [m for m in extra if rng.random() < 0.4 and (m[0] != "i" or with_i)]
+    if scheme != "minimal":
+        ms += [m for m in extra if rng.random() < 0.4 and (m[0] != "i" or with_i)]
     js = pp.to_json(net)
     case = {"net": js, "scheme": scheme, "measurements": [[m[0], m[1], float(m[2]), float(m[3]), int(m[4]), m[5]] for m in ms]}
     for f_ in sorted(feat):
@@ -364,7 +373,7 @@ def _real_case(ctx, rng, k, hx_jobs, gain_jobs):
             if d > 1e-6:
                 ctx.violation("spec", "estimates differ by %.3g between the ordered and the permuted/duplicated measurement set" % d, case2)
     # ---- no bad data flagged
-    if ok2 and rng.random() < 0.6:
+    if ok2 and scheme != "minimal" and rng.random() < 0.6:      # without redundancy bad data is undetectable by construction
         kind, rnmax = _rn_kind(net2)
         try:
             flagged = chi2_analysis(net2)
